@@ -47,6 +47,9 @@ type PartitionRouter struct {
 
 	mu     sync.RWMutex
 	routes map[string]string // "topic/partition" -> brokerID
+	// loadedRev is the etcd revision of the last full read; the watch resumes
+	// right after it so no change between the read and the watch is missed.
+	loadedRev int64
 }
 
 // NewPartitionRouter creates a router and starts watching etcd for lease changes.
@@ -130,6 +133,9 @@ func (r *PartitionRouter) loadAll(ctx context.Context) error {
 	}
 	r.mu.Lock()
 	r.routes = fresh
+	if resp.Header != nil {
+		r.loadedRev = resp.Header.Revision
+	}
 	r.mu.Unlock()
 	r.logger.Info("loaded partition routes from etcd", "count", len(fresh))
 	return nil
@@ -137,7 +143,13 @@ func (r *PartitionRouter) loadAll(ctx context.Context) error {
 
 func (r *PartitionRouter) watch(ctx context.Context) {
 	for {
-		watchChan := r.client.Watch(ctx, partitionLeasePrefix+"/", clientv3.WithPrefix(), clientv3.WithPrevKV())
+		opts := []clientv3.OpOption{clientv3.WithPrefix(), clientv3.WithPrevKV()}
+		r.mu.RLock()
+		if r.loadedRev > 0 {
+			opts = append(opts, clientv3.WithRev(r.loadedRev+1))
+		}
+		r.mu.RUnlock()
+		watchChan := r.client.Watch(ctx, partitionLeasePrefix+"/", opts...)
 		for resp := range watchChan {
 			if resp.Err() != nil {
 				r.logger.Warn("partition lease watch error", "error", resp.Err())
